@@ -97,6 +97,11 @@ def _match_tok(t, s, i):
                     res.add(i + 1)
     for j in _match_seq(inner, s, {i}):
         if j < len(s) and s[j] == mark:
+            if j == i and i > 0 and not inner:
+                # an accent command with an empty argument is only acceptable for a mark that has no
+                # preceding character to sit on (start of the text); elsewhere the accent must be applied
+                # to the base character it follows
+                continue
             res.add(j + 1)
     return res
 
